@@ -12,10 +12,14 @@
   of the metaschema designated a non-schema — which the kernel excludes by evaluating every
   reference of every metaschema; each metaschema accepts itself (kernel evaluation).
   "Exactly what the metaschema allows" in the sense of an independent specification with
-  references is NOT proved (C01's specification is reference-free); it is decided by the CHK
-  correspondence on malformed candidates.
+  references (`Spec.validRN`) is proved at the end: `checkSchema_accepts_iff_spec`,
+  `checkSchema_rejects_iff_spec`, for every candidate on which the metaschema run ends normally
+  within the fuel. The domain statement `metaDomain_ok` as first given is FALSE
+  (`metaDomain_ok_counterexample`: `Spec.numSafe` rejects every bundled metaschema because of the
+  PROPERTY named `multipleOf`/`divisibleBy`); `metaDomain_ok_partial` is what holds and suffices.
 -/
 import JS.Proofs.CheckSchema
+import JS.Props.C02
 namespace JS.Props.C11
 open JS
 
@@ -113,5 +117,129 @@ theorem checkSchema_never_crashes (env : Env) (hre : Props.C03.RegexOk env) (hso
   rcases Props.C03.no_crash env hre hso impl d none fuel s d.metaSchema (meta_shaped d) (some 1) st with h | h
   · exact .inl (checkSchema_benign env impl g d fuel s st hst h)
   · exact .inr h
+
+/-! ### Exactly what the metaschema allows
+
+With the specification of validity WITH references (`Spec.validRN`, JS.Spec.ValidRef) and C02's
+`ref_verdict_agrees`, "check_schema accepts exactly what the draft's metaschema allows" becomes a
+statement against an independent specification: the bundled metaschema, read by the draft's own
+rules — `$ref: "#"`, `definitions`, `dependencies`, type unions, in Draft 3 `extends` — says
+"valid" for the candidate exactly when `check_schema` returns normally. The domain of the
+reference-aware specification is, for each metaschema, a finite table checked by the kernel against
+the regenerated metaschema and URI answers — with the side conditions of `Spec.RefDomain` read
+locally (`Spec.RefDomainL`, JS.Spec.ValidRef), because `Spec.numSafe` as written rejects the
+metaschemas themselves (see `metaDomain_ok_statement`). The one hypothesis is that the
+metaschema validator's run on the candidate ends normally within the fuel given (candidates nest
+arbitrarily deep; the recursion of the metaschema follows the candidate). -/
+
+/-- the store `check_schema`'s resolver starts with (the registered metaschemas) and its base URI -/
+def metaStore (d : Draft) : List (Str × Json) := match metaState d with | some st => st.store | none => []
+def metaTop (d : Draft) : Str := match metaState d with | some st => st.top | none => []
+
+/-- the (base URI, schema) pairs that evaluating the metaschema of draft `d` can reach: every base
+    URI the draft's URI table knows × every schema object at a schema position of the metaschema
+    (the `definitions` included); in drafts 6 and 7 also the boolean schemas -/
+def metaDomain (d : Draft) : Str → Json → Bool := metaDom d
+
+/-- `metaDomain_ok` AS FIRST STATED. It is FALSE (`metaDomain_ok_counterexample`), and so for every
+    possible definition of `metaDomain` (`no_refDomain_has_metaschema`): `Spec.RefDomain.side` asks
+    `Spec.numSafe` of every member, `numSafe` looks at every key spelled `multipleOf`/`divisibleBy`
+    at any depth, and every bundled metaschema has a PROPERTY of that name
+    (`"properties": {"multipleOf": {"type": "number", …}}`), so `numSafe d.metaSchema = false`. -/
+def metaDomain_ok_statement : Prop :=
+  ∀ d : Draft,
+    Spec.RefDomain (metaEnv d) d (metaStore d) (metaDomain d) ∧ metaDomain d (metaTop d) d.metaSchema = true
+
+/-- no `Spec.RefDomain` whatever contains a bundled metaschema -/
+theorem no_refDomain_has_metaschema (env : Env) (d : Draft) (base : List (Str × Json))
+    (D : Str → Json → Bool) (top : Str) :
+    ¬ (Spec.RefDomain env d base D ∧ D top d.metaSchema = true) := by
+  rintro ⟨hD, hs⟩
+  have h := (hD.side top d.metaSchema hs).2.1
+  rw [meta_not_numSafe d] at h
+  cases h
+
+theorem metaDomain_ok_counterexample : ¬ metaDomain_ok_statement :=
+  fun h => no_refDomain_has_metaschema _ .d7 _ _ _ (h .d7)
+
+/-- what holds instead: the side conditions read LOCALLY (`Spec.RefDomainL`, JS.Spec.ValidRef: each
+    member's OWN `multipleOf`/`divisibleBy`/`type`/`disallow` values, which is all the evaluator
+    reads of one schema object — the subschemas are members themselves); every other field is that
+    of `Spec.RefDomain`. Kernel evaluation over the regenerated metaschemas and URI tables. -/
+theorem metaDomain_ok_partial (d : Draft) :
+    Spec.RefDomainL (metaEnv d) d (metaStore d) (metaDomain d) ∧ metaDomain d (metaTop d) d.metaSchema = true := by
+  have h := metaDomOk_all d
+  simp only [metaDomOk, Bool.and_eq_true] at h
+  exact ⟨refDomainL_of_domainOk h.1.1, h.1.2⟩
+
+section
+variable {d : Draft} {st : RState}
+
+private theorem fresh_of_metaState (h : metaState d = some st) :
+    freshResolver (metaEnv d) Globals.initial d.classDef d.metaSchema = .ok st := by
+  unfold metaState at h
+  cases hr : freshResolver (metaEnv d) Globals.initial d.classDef d.metaSchema with
+  | ok st' => rw [hr] at h; cases h; rfl
+  | raise e => rw [hr] at h; cases h
+  | miss q => rw [hr] at h; cases h
+
+private theorem metaStore_eq (h : metaState d = some st) : metaStore d = st.store := by
+  unfold metaStore; rw [h]
+
+private theorem metaTop_eq (h : metaState d = some st) : metaTop d = st.top := by
+  unfold metaTop; rw [h]
+
+private theorem metaMemo_eq (h : metaState d = some st) : st.memo = [] := by
+  have h' := metaDomOk_all d
+  simp only [metaDomOk, Bool.and_eq_true] at h'
+  have h3 := h'.2
+  rw [show freshState d = some st from h] at h3
+  exact List.isEmpty_iff.1 h3
+
+/-- the verdict of the exhaustive metaschema run is the specification's -/
+private theorem meta_verdict (s : Json) (hws : Spec.WF s = true) (fuel : Nat)
+    (hst : metaState d = some st)
+    (hdone : (eval (metaEnv d) ⟨fun _ _ => none⟩ (d.cfg none) fuel s d.metaSchema none st).stop = .done) :
+    (eval (metaEnv d) ⟨fun _ _ => none⟩ (d.cfg none) fuel s d.metaSchema none st).errs = []
+      ↔ Spec.validRN (metaEnv d) d (metaStore d) fuel (metaTop d) d.metaSchema s = true := by
+  refine Props.C02.ref_verdict_agrees_local (metaEnv d) (fun _ _ => ⟨false, rfl⟩)
+    (fun xs => ⟨xs, rfl, List.Perm.refl _⟩) ⟨fun _ _ _ => rfl, fun _ _ _ _ _ _ => rfl⟩
+    ⟨fun _ _ => none⟩ d (metaStore d) (metaDomain d) (metaDomain_ok_partial d).1 (metaTop d)
+    d.metaSchema s (metaDomain_ok_partial d).2 hws fuel st ?_ (metaTop_eq hst).symm hdone fuel
+    (Nat.le_refl _)
+  rw [metaStore_eq hst]
+  exact Props.C15.sameWorld_fresh (metaEnv d) st (metaMemo_eq hst)
+
+end
+
+/-- **check_schema accepts exactly what the metaschema allows** (reference-aware specification) -/
+theorem checkSchema_accepts_iff_spec (d : Draft) (s : Json) (hws : Spec.WF s = true) (fuel : Nat) (st : RState)
+    (hst : metaState d = some st)
+    (hdone : (eval (metaEnv d) ⟨fun _ _ => none⟩ (d.cfg none) fuel s d.metaSchema none st).stop = .done) :
+    checkSchema (metaEnv d) ⟨fun _ _ => none⟩ Globals.initial d.classDef fuel s = .ok
+      ↔ Spec.validRN (metaEnv d) d (metaStore d) fuel (metaTop d) d.metaSchema s = true := by
+  rw [checkSchema_draft _ _ _ d fuel s st (fresh_of_metaState hst), Out.verdict_ok,
+    ← meta_verdict s hws fuel hst hdone]
+  exact ⟨fun h => h.1, fun h => ⟨h, hdone⟩⟩
+
+/-- … and rejects, with `SchemaError`, exactly what it forbids -/
+theorem checkSchema_rejects_iff_spec (d : Draft) (s : Json) (hws : Spec.WF s = true) (fuel : Nat) (st : RState)
+    (hst : metaState d = some st)
+    (hdone : (eval (metaEnv d) ⟨fun _ _ => none⟩ (d.cfg none) fuel s d.metaSchema none st).stop = .done) :
+    (∃ e, checkSchema (metaEnv d) ⟨fun _ _ => none⟩ Globals.initial d.classDef fuel s = .schemaError e)
+      ↔ Spec.validRN (metaEnv d) d (metaStore d) fuel (metaTop d) d.metaSchema s = false := by
+  have hv := meta_verdict s hws fuel hst hdone
+  rw [checkSchema_draft _ _ _ d fuel s st (fresh_of_metaState hst), Out.verdict_done _ hdone]
+  cases he : (eval (metaEnv d) ⟨fun _ _ => none⟩ (d.cfg none) fuel s d.metaSchema none st).errs with
+  | nil =>
+    refine ⟨fun ⟨e, h⟩ => (nomatch h), fun h => ?_⟩
+    rw [hv.1 he] at h
+    cases h
+  | cons e es =>
+    refine ⟨fun _ => ?_, fun _ => ⟨e, rfl⟩⟩
+    rw [Bool.eq_false_iff]
+    intro h
+    rw [hv.2 h] at he
+    cases he
 
 end JS.Props.C11
